@@ -226,8 +226,9 @@ def run_cli_case(impl, case, workdir, timeout=20, cover=False):
             home = os.path.join(d, "@home"); os.makedirs(os.path.join(home, ".hranoprovod"))
             open(os.path.join(home, ".hranoprovod", "config"), "wb").write(cfg_file_text(case["files"]["@default-config"]["cfg"]))
             if os.path.realpath(cmd[0]).startswith("/root/"):
-                # the binary itself lives under /root (a snapshot run): the bind mount would hide it
-                hrp = os.path.join(d, "@hr"); shutil.copy2(cmd[0], hrp); cmd[0] = hrp
+                # the binary itself lives under /root (a snapshot run): the bind mount would hide it; run_cli_cases made one copy outside
+                # (one copy per batch, made before any worker thread starts: a file still open for writing in a forking process cannot be executed)
+                cmd[0] = impl.get("hr_outside_root") or cmd[0]
             inner = "mount --bind %s /root && cd %s && exec \"$@\"" % (sh_quote(home), sh_quote(d))
             cmd = ["unshare", "-m", "sh", "-c", inner, "sh"] + cmd
         try:
@@ -278,6 +279,8 @@ def sh_quote(s): return "'" + s.replace("'", "'\\''") + "'"
 def run_cli_cases(impl, cases, nproc=NPROC):
     work = tempfile.mkdtemp(prefix="hv-run.", dir="/var/tmp")
     try:
+        if os.path.realpath(impl["hr"]).startswith("/root/") and any("@default-config" in c.get("files", {}) for c in cases):
+            shutil.copy2(impl["hr"], os.path.join(work, "@hr")); impl = dict(impl, hr_outside_root=os.path.join(work, "@hr"))
         with cf.ThreadPoolExecutor(max_workers=nproc) as ex:
             res = list(ex.map(lambda c: run_cli_case(impl, c, work), cases))
             if COVDIR is not None and impl.get("hr_cover"):
